@@ -179,7 +179,7 @@ pub fn comparable(job: &Job, rec: &Record, simulated: bool) -> Vec<(String, Stri
     }
     vec![
         ("outcome".to_string(), format!("{:?}", rec.outcome)),
-        ("stdout".to_string(), String::from_utf8_lossy(&rec.stdout).to_string()),
+        ("stdout".to_string(), crate::c10::mask_file_handles(&String::from_utf8_lossy(&rec.stdout))),
         ("stderr".to_string(), String::from_utf8_lossy(&rec.stderr).to_string()),
         ("files".to_string(), format!("{:?}", files)),
     ]
